@@ -47,6 +47,23 @@ func main() {
 		os.Exit(cmdRun(os.Args[2:]))
 	case "replay":
 		os.Exit(cmdReplay(os.Args[2:]))
+	case "xmlmdiff":
+		rep, err := runXMLMDiff()
+		cleanupReplay()
+		if err != nil {
+			fmt.Fprintln(os.Stderr, err)
+			os.Exit(2)
+		}
+		fmt.Printf("fixtures=%d decodings compared=%d agree=%d disagree=%d skipped=%d\n", rep.Fixtures, rep.Compared, rep.Agree, len(rep.Disagree), len(rep.Skipped))
+		for _, d := range rep.Disagree {
+			fmt.Println("DISAGREE", d)
+		}
+		for _, s := range rep.Skipped {
+			fmt.Println("SKIPPED", s)
+		}
+		if len(rep.Disagree) > 0 {
+			os.Exit(1)
+		}
 	case "list":
 		for _, p := range propOrder {
 			fmt.Println(p, len(props[p].Harnesses), "harnesses")
@@ -57,8 +74,18 @@ func main() {
 	}
 }
 
+// extraHarnessFiles: generated harness sources (absolute paths) added to both overlays.
+var extraHarnessFiles []string
+
 func overlayFor(symbolic bool) (map[string][]byte, error) {
 	ov := map[string][]byte{}
+	for _, f := range extraHarnessFiles {
+		b, err := os.ReadFile(f)
+		if err != nil {
+			return nil, err
+		}
+		ov[filepath.Join(repoDir, filepath.Base(f))] = b
+	}
 	add := func(dir string) error {
 		files, _ := filepath.Glob(filepath.Join(verifDir, "harness", dir, "*.go"))
 		for _, f := range files {
